@@ -71,7 +71,40 @@ macro_rules! field_probe {
                     of(a).serialize_with_flags(&mut v, EmptyFlags).unwrap();
                     cx.eq("serialize_with_flags(EmptyFlags)", &d, v.clone(), le(a).to_vec());
                     match <$T>::deserialize_with_flags::<_, EmptyFlags>(&v[..]) { Ok((x, _)) => cx.eq("deserialize_with_flags", &d, to(&x), a.clone()), Err(_) => cx.cex("deserialize_with_flags rejects canonical", d(), "Err".into(), "Ok".into()) }
-                    // decimal strings and BigUint
+                    // flag bits round-trip value and flags: the standard flag types and a full-byte / oversized custom one
+                {
+                    use ark_ec::{twisted_edwards::TEFlags, short_weierstrass::SWFlags};
+                    use ark_serialize::Flags;
+                    let bits = <$T as PrimeField>::MODULUS_BIT_SIZE as usize;
+                    for fl in [TEFlags::XIsPositive, TEFlags::XIsNegative] {
+                        let mut v = Vec::new();
+                        of(a).serialize_with_flags(&mut v, fl).unwrap();
+                        cx.eq("serialize_with_flags(TEFlags) length", &d, v.len(), (bits + 1 + 7) / 8);
+                        match <$T>::deserialize_with_flags::<_, TEFlags>(&v[..]) { Ok((x, f2)) => { cx.eq("TEFlags round trip value", &d, to(&x), a.clone()); cx.eq("TEFlags round trip flag", &d, f2, fl); } Err(_) => cx.cex("deserialize_with_flags(TEFlags) rejects its own output", d(), "Err".into(), "Ok".into()) }
+                    }
+                    for fl in [SWFlags::YIsPositive, SWFlags::YIsNegative, SWFlags::PointAtInfinity] {
+                        let mut v = Vec::new();
+                        of(a).serialize_with_flags(&mut v, fl).unwrap();
+                        cx.eq("serialize_with_flags(SWFlags) length", &d, v.len(), (bits + 2 + 7) / 8);
+                        match <$T>::deserialize_with_flags::<_, SWFlags>(&v[..]) { Ok((x, f2)) => { cx.eq("SWFlags round trip value", &d, to(&x), a.clone()); cx.eq("SWFlags round trip flag", &d, f2, fl); } Err(_) => cx.cex("deserialize_with_flags(SWFlags) rejects its own output", d(), "Err".into(), "Ok".into()) }
+                    }
+                    #[derive(Clone, Copy, PartialEq, Eq, Debug, Default)]
+                    struct F8(u8);
+                    impl Flags for F8 { const BIT_SIZE: usize = 8; fn u8_bitmask(&self) -> u8 { self.0 } fn from_u8(v: u8) -> Option<Self> { Some(F8(v)) } }
+                    for fb in [0u8, 1, 0x80, 0xff] {
+                        let mut v = Vec::new();
+                        of(a).serialize_with_flags(&mut v, F8(fb)).unwrap();
+                        cx.eq("serialize_with_flags(8-bit flags) length", &d, v.len(), (bits + 8 + 7) / 8);
+                        cx.eq("8-bit flags: value bytes untouched", &d, v[..$nb].to_vec(), le(a).to_vec());
+                        cx.eq("8-bit flags: flag byte appended", &d, v[$nb], fb);
+                    }
+                    #[derive(Clone, Copy, PartialEq, Eq, Debug, Default)]
+                    struct F9;
+                    impl Flags for F9 { const BIT_SIZE: usize = 9; fn u8_bitmask(&self) -> u8 { 0 } fn from_u8(_v: u8) -> Option<Self> { Some(F9) } }
+                    let mut v = Vec::new();
+                    cx.eq("flags wider than a byte are refused", &d, of(a).serialize_with_flags(&mut v, F9).is_err(), true);
+                }
+                // decimal strings and BigUint
                     let back: N = of(a).into();
                     cx.eq("Into<BigUint>", &d, back, a.clone());
                     cx.eq("From<BigUint>", &d, to(&<$T>::from(a.clone())), a.clone());
